@@ -141,6 +141,10 @@ def renderings(obj) -> list:
         fn = getattr(obj, name, None)
         if fn is None or not callable(fn):
             continue
+        if name in ('__str__', '__repr__') and getattr(type(obj), name) in (object.__str__, object.__repr__):
+            continue  # the default repr prints the address of the object: not a rendering of its value
+        if name == '__str__' and type(obj).__str__ is object.__str__:
+            continue
         tag = name + ('/compact' if kw else '')
         try:
             out.append((tag, str(fn(*a, **kw))))
@@ -163,6 +167,13 @@ def render_digest(rs: list) -> str:
     return h.hexdigest()[:16] + ' ' + short
 
 
+def case_id(label: str, aux, b: bytes) -> str:
+    h = hx(b)
+    if len(h) > 240:
+        h = h[:200] + '..' + laws.sha(b)
+    return f'{label}|{aux}|{h}'
+
+
 def check_l5(ctx: Ctx, label: str, decode, wit: dict, case_id: str | None) -> None:
     """same bytes decoded twice in this process render identically; digest kept for the other process"""
     try:
@@ -174,6 +185,7 @@ def check_l5(ctx: Ctx, label: str, decode, wit: dict, case_id: str | None) -> No
     ra, rb = renderings(a), renderings(b)
     if any(s.startswith('<raises') for _, s in ra):
         ctx.res.count('render-raises:' + label)
+        ctx.res.extra.setdefault('render_raises_samples', []).append(f'{label} {wit.get("bytes", "")[:60]}: ' + '; '.join(f'{n} {s}' for n, s in ra if s.startswith('<raises'))[:160])
     if ra != rb:
         diff = [(n, s, t) for (n, s), (_, t) in zip(ra, rb) if s != t][:2]
         ctx.bad('C15/render-unstable:' + label, f'the same bytes decoded twice render differently: {diff}', dict(wit, renderings=diff), label, 'L5')
@@ -254,7 +266,7 @@ def exercise_nlri(ctx: Ctx, x, src: str, text: str | None = None, laws_only=None
         key = (label, send, b)
         if key not in ctx.seen:
             ctx.seen.add(key)
-            check_l5(ctx, label, lambda: laws.decode_one_nlri(afi, safi, b, send, neg)[0], wit, None)
+            check_l5(ctx, label, lambda: laws.decode_one_nlri(afi, safi, b, send, neg)[0], wit, case_id(label, int(send), b))
             if sub:
                 ctx.ok(sub, 'L5')
 
@@ -305,14 +317,11 @@ def check_l4_pair(ctx: Ctx, a, b, what: str, wit: dict) -> None:
     if ia == ib or ra == rb:
         ctx.bad(f'C15/index-collision:{what}:{label}', f'two routes which differ in {what} share an index: {laws.safe_repr(a)[:90]} / {laws.safe_repr(b)[:90]}', dict(wit, index=hx(ia), route_index=hx(ra)), label, 'L4')
         return
-    try:
-        equal = bool(a == b)
-    except Exception:  # noqa
-        equal = False
-    if equal:
-        ctx.bad(f'C15/index-collision:{what}:{label}', f'two routes which differ in {what} compare equal', wit, label, 'L4')
-        return
     ctx.ok(label, 'L4', (label, 'L4', what, hx(ia), hx(ib)))
+    # the statement asks for distinct indexes only; if the class nevertheless says the two are equal, the pair is
+    # an (a == b, index differs) pair and the post-condition on == holds it to L3
+    if check_eq_pair(ctx, a, b, label, dict(wit, pair=f'differ in {what}')):
+        ctx.res.count(f'differ-in-{what}-but-equal:{label}')
 
 
 # ============================================================================== IP families (INET / Label / IPVPN)
@@ -514,6 +523,12 @@ def run_ip_family(ctx: Ctx, afi: int, safi: int) -> None:
             ctx.res.count('factory-refused:%s' % type(e).__name__)
             continue
         built[k] = (d, x)
+        if (safi in (4, 128) and not d['labels']) or (safi == 128 and not d['rd']):
+            # a labelled / VPN object without a label stack or RD only exists as a factory default; it is not a
+            # value of the family (the wire form has no way to say "no label"), so it is not held to L1 here.
+            # The text grammar can build the VPN one (rd without label): that one is exercised below.
+            ctx.res.count('degenerate-factory-object-not-exercised')
+            continue
         exercise_nlri(ctx, x, 'factory:from_cidr')
         # the other factories must give an equal object; equal objects are then held to L3 by the contract
         for how in ('make_route', 'from_settings'):
@@ -645,3 +660,1307 @@ def run_ip_family(ctx: Ctx, afi: int, safi: int) -> None:
                 except Exception:  # noqa
                     continue
                 check_l4_pair(ctx, a, b, 'path-id+prefix', {'class': laws.nlri_label(a), 'note': 'path identifier bytes spell the start of the %r sentinel' % sentinel.decode()})
+
+
+# ============================================================================== other NLRI families: factories
+
+
+def _rd(b: bytes):
+    from exabgp.bgp.message.update.nlri.qualifier import RouteDistinguisher
+
+    return RouteDistinguisher(b)
+
+
+def _ip(s: str):
+    from exabgp.protocol.ip import IP
+
+    return IP.create_ip(ip_pton(s))
+
+
+RD_SET = [RDS[1], RDS[2], RDS[3], RDS[4], RDS[6]]
+
+
+def try_build(ctx: Ctx, name: str, fn):
+    try:
+        return fn()
+    except Exception as e:  # noqa
+        ctx.res.count(f'factory-refused:{name}:{type(e).__name__}')
+        ctx.res.extra.setdefault('factory_refused', []).append(f'{name}: {type(e).__name__}: {str(e)[:120]}')
+        return None
+
+
+def rd_l4(ctx: Ctx, name: str, build) -> None:
+    """build(rd_bytes) -> NLRI; objects which differ in the RD only must not share an index"""
+    base = try_build(ctx, name, lambda: build(RD_SET[0]))
+    if base is None:
+        return
+    for rd in RD_SET[1:] + [RD_SET[0][:7] + b'\x02']:
+        other = try_build(ctx, name, lambda: build(rd))
+        if other is not None:
+            check_l4_pair(ctx, base, other, 'rd', {'class': laws.nlri_label(base), 'factory': name})
+
+
+def evpn_objects(ctx: Ctx) -> list:
+    from exabgp.bgp.message.update.nlri.evpn.ethernetad import EthernetAD
+    from exabgp.bgp.message.update.nlri.evpn.mac import MAC
+    from exabgp.bgp.message.update.nlri.evpn.multicast import Multicast
+    from exabgp.bgp.message.update.nlri.evpn.prefix import Prefix
+    from exabgp.bgp.message.update.nlri.evpn.segment import EthernetSegment
+    from exabgp.bgp.message.update.nlri.qualifier import ESI, EthernetTag, Labels
+    from exabgp.bgp.message.update.nlri.qualifier import MAC as MACQ
+
+    out = []
+    esis = [ESI.make_default(), ESI.make_esi(b'\xff' * 10), ESI.make_esi(bytes(range(1, 11)))]
+    etags = [EthernetTag.make_etag(0), EthernetTag.make_etag(0xFFFFFFFF), EthernetTag.make_etag(100)]
+    macs = [MACQ('00:00:00:00:00:00'), MACQ('ff:ff:ff:ff:ff:ff'), MACQ('00:11:22:33:44:55')]
+    labs = [Labels.make_labels([0]), Labels.make_labels([1048575]), Labels.make_labels([16, 17]), None]
+    ips = [None, _ip('10.1.2.3'), _ip('2001:db8::1'), _ip('0.0.0.0'), _ip('255.255.255.255')]
+    for rd in RD_SET[:3]:
+        for esi in esis:
+            for et in etags:
+                for lab in labs:
+                    out.append(('make_ethernetad', lambda rd=rd, esi=esi, et=et, lab=lab: EthernetAD.make_ethernetad(_rd(rd), esi, et, lab)))
+                    for ip in ips[:3]:
+                        if lab is None:
+                            continue  # a MAC/IP route without a label is a factory default, not a value of the type
+                        out.append(('make_mac', lambda rd=rd, esi=esi, et=et, lab=lab, ip=ip: MAC.make_mac(_rd(rd), esi, et, macs[2], 48, lab, ip)))
+        for mac in macs:
+            for ml in (0, 1, 48):
+                out.append(('make_mac', lambda rd=rd, mac=mac, ml=ml: MAC.make_mac(_rd(rd), esis[0], etags[0], mac, ml, labs[0], ips[1])))
+        for et in etags:
+            for ip in ips[1:]:
+                out.append(('make_multicast', lambda rd=rd, et=et, ip=ip: Multicast.make_multicast(_rd(rd), et, ip)))
+        for esi in esis:
+            for ip in ips[1:]:
+                out.append(('make_ethernetsegment', lambda rd=rd, esi=esi, ip=ip: EthernetSegment.make_ethernetsegment(_rd(rd), esi, ip)))
+        for ip, ln, gw in (('10.1.2.0', 24, '10.0.0.1'), ('0.0.0.0', 0, '0.0.0.0'), ('10.1.2.3', 32, '255.255.255.255'), ('2001:db8::', 32, '2001:db8::1'), ('::', 0, '::'), ('2001:db8::1', 128, '::1')):
+            for lab in labs[:2]:  # a type 5 route carries exactly one label
+                out.append(('make_prefix', lambda rd=rd, ip=ip, ln=ln, gw=gw, lab=lab: Prefix.make_prefix(_rd(rd), esis[0], etags[2], lab, _ip(ip), ln, _ip(gw))))
+    return out
+
+
+def run_evpn(ctx: Ctx) -> None:
+    from exabgp.bgp.message.update.nlri.evpn.ethernetad import EthernetAD
+    from exabgp.bgp.message.update.nlri.evpn.mac import MAC
+    from exabgp.bgp.message.update.nlri.evpn.multicast import Multicast
+    from exabgp.bgp.message.update.nlri.evpn.prefix import Prefix
+    from exabgp.bgp.message.update.nlri.evpn.segment import EthernetSegment
+    from exabgp.bgp.message.update.nlri.qualifier import ESI, EthernetTag, Labels
+    from exabgp.bgp.message.update.nlri.qualifier import MAC as MACQ
+
+    for name, fn in evpn_objects(ctx):
+        x = try_build(ctx, name, fn)
+        if x is not None:
+            exercise_nlri(ctx, x, 'factory:' + name)
+    esi, et, lab, mac = ESI.make_default(), EthernetTag.make_etag(7), Labels.make_labels([16]), MACQ('00:11:22:33:44:55')
+    rd_l4(ctx, 'make_ethernetad', lambda rd: EthernetAD.make_ethernetad(_rd(rd), esi, et, lab))
+    rd_l4(ctx, 'make_mac', lambda rd: MAC.make_mac(_rd(rd), esi, et, mac, 48, lab, _ip('10.1.2.3')))
+    rd_l4(ctx, 'make_multicast', lambda rd: Multicast.make_multicast(_rd(rd), et, _ip('10.1.2.3')))
+    rd_l4(ctx, 'make_ethernetsegment', lambda rd: EthernetSegment.make_ethernetsegment(_rd(rd), esi, _ip('10.1.2.3')))
+    rd_l4(ctx, 'make_prefix', lambda rd: Prefix.make_prefix(_rd(rd), esi, et, lab, _ip('10.1.2.0'), 24, _ip('10.0.0.1')))
+    # prefix (type 5): address and length
+    mk = lambda ip, ln: Prefix.make_prefix(_rd(RD_SET[0]), esi, et, lab, _ip(ip), ln, _ip('10.0.0.1' if ':' not in ip else '::1'))  # noqa: E731
+    for (a, b, what) in ((('10.1.2.0', 24), ('10.1.3.0', 24), 'prefix-address'), (('10.1.2.0', 24), ('10.1.2.0', 25), 'prefix-mask'), (('2001:db8::', 32), ('2001:db9::', 32), 'prefix-address'), (('::', 0), ('::', 1), 'prefix-mask')):
+        xa, xb = try_build(ctx, 'make_prefix', lambda: mk(*a)), try_build(ctx, 'make_prefix', lambda: mk(*b))
+        if xa is not None and xb is not None:
+            check_l4_pair(ctx, xa, xb, what, {'class': 'nlri:l2vpn/evpn', 'factory': 'make_prefix'})
+    # equal by ==, different bytes: MAC/IP routes which differ in ESI or label (the class says they are the same route)
+    for what, a, b in (
+        ('esi', MAC.make_mac(_rd(RD_SET[0]), esi, et, mac, 48, lab, None), MAC.make_mac(_rd(RD_SET[0]), ESI.make_esi(b'\x01' * 10), et, mac, 48, lab, None)),
+        ('label', MAC.make_mac(_rd(RD_SET[0]), esi, et, mac, 48, lab, None), MAC.make_mac(_rd(RD_SET[0]), esi, et, mac, 48, Labels.make_labels([17]), None)),
+        ('label', EthernetAD.make_ethernetad(_rd(RD_SET[0]), esi, et, lab), EthernetAD.make_ethernetad(_rd(RD_SET[0]), esi, et, Labels.make_labels([17]))),
+        ('label', mk('10.1.2.0', 24), Prefix.make_prefix(_rd(RD_SET[0]), esi, et, Labels.make_labels([17]), _ip('10.1.2.0'), 24, _ip('10.0.0.1'))),
+        ('gateway', mk('10.1.2.0', 24), Prefix.make_prefix(_rd(RD_SET[0]), esi, et, lab, _ip('10.1.2.0'), 24, _ip('10.0.0.2'))),
+    ):
+        eq = check_eq_pair(ctx, a, b, 'nlri:l2vpn/evpn', {'class': 'nlri:l2vpn/evpn', 'pair': f'same route key, different {what}', 'a': laws.safe_repr(a), 'b': laws.safe_repr(b)})
+        ctx.res.count(f'evpn-{what}-variant-{"equal" if eq else "unequal"}')
+        check_eq_pair(ctx, make_route(a), make_route(b), 'route:l2vpn/evpn', {'pair': f'Route, same EVPN key different {what}'})
+
+
+def run_vpls(ctx: Ctx) -> None:
+    from exabgp.bgp.message.update.nlri.settings import VPLSSettings
+    from exabgp.bgp.message.update.nlri.vpls import VPLS
+
+    for rd in RD_SET:
+        for ep in (0, 1, 65535):
+            for base in (0, 3, 16, 1048575):
+                for off, size in ((0, 0), (1, 8), (65535, 65535)):
+                    x = try_build(ctx, 'make_vpls', lambda: VPLS.make_vpls(_rd(rd), ep, base, off, size))
+                    if x is None:
+                        continue
+                    exercise_nlri(ctx, x, 'factory:make_vpls')
+
+                    def via_settings():
+                        s = VPLSSettings()
+                        s.rd, s.endpoint, s.base, s.offset, s.size = _rd(rd), ep, base, off, size
+                        s.nexthop = _ip('1.2.3.4')
+                        return VPLS.from_settings(s)
+
+                    x2 = try_build(ctx, 'vpls.from_settings', via_settings)
+                    if x2 is not None:
+                        check_eq_pair(ctx, x, x2, 'nlri:l2vpn/vpls', {'class': 'nlri:l2vpn/vpls', 'pair': 'make_vpls vs from_settings'})
+    rd_l4(ctx, 'make_vpls', lambda rd: VPLS.make_vpls(_rd(rd), 1, 16, 1, 8))
+
+
+def run_rtc(ctx: Ctx) -> None:
+    from exabgp.bgp.message.open.asn import ASN
+    from exabgp.bgp.message.update.attribute.community.extended.rt import RouteTargetASN2Number, RouteTargetASN4Number, RouteTargetIPNumber
+    from exabgp.bgp.message.update.nlri.rtc import RTC
+
+    rts = [None]
+    for tr in (True, False):
+        rts += [
+            lambda tr=tr: RouteTargetASN2Number.make_route_target(ASN(65000), 1, tr),
+            lambda tr=tr: RouteTargetASN2Number.make_route_target(ASN(0), 0, tr),
+            lambda tr=tr: RouteTargetASN2Number.make_route_target(ASN(65535), 0xFFFFFFFF, tr),
+            lambda tr=tr: RouteTargetIPNumber.make_route_target('1.2.3.4', 5, tr),
+            lambda tr=tr: RouteTargetIPNumber.make_route_target('255.255.255.255', 65535, tr),
+            lambda tr=tr: RouteTargetASN4Number.make_route_target(ASN(70000), 1, tr),
+            lambda tr=tr: RouteTargetASN4Number.make_route_target(ASN(4294967295), 65535, tr),
+        ]
+    objs = []
+    for origin in (0, 1, 65000, 70000, 4294967295):
+        for rt in rts:
+            x = try_build(ctx, 'make_rtc', lambda: RTC.make_rtc(ASN(origin), rt() if rt else None))
+            if x is not None:
+                exercise_nlri(ctx, x, 'factory:make_rtc')
+                objs.append((origin, rt, x))
+    # RTC "prefix" = origin AS + route target
+    a = RTC.make_rtc(ASN(65000), RouteTargetASN2Number.make_route_target(ASN(65000), 1))
+    for b, what in ((RTC.make_rtc(ASN(65001), RouteTargetASN2Number.make_route_target(ASN(65000), 1)), 'prefix-address'), (RTC.make_rtc(ASN(65000), RouteTargetASN2Number.make_route_target(ASN(65000), 2)), 'prefix-address'), (RTC.make_rtc(ASN(65000), None), 'prefix-mask')):
+        check_l4_pair(ctx, a, b, what, {'class': 'nlri:ipv4/rtc', 'factory': 'make_rtc'})
+
+
+def run_mvpn(ctx: Ctx) -> None:
+    from exabgp.bgp.message.update.nlri.mvpn.sharedjoin import SharedJoin
+    from exabgp.bgp.message.update.nlri.mvpn.sourcead import SourceAD
+    from exabgp.bgp.message.update.nlri.mvpn.sourcejoin import SourceJoin
+    from exabgp.protocol.family import AFI
+
+    for afi, s, g in ((AFI.ipv4, '10.1.2.3', '232.1.1.1'), (AFI.ipv4, '0.0.0.0', '255.255.255.255'), (AFI.ipv6, '2001:db8::1', 'ff0e::1'), (AFI.ipv6, '::', 'ffff:ffff:ffff:ffff:ffff:ffff:ffff:ffff')):
+        for rd in RD_SET:
+            x = try_build(ctx, 'make_sourcead', lambda: SourceAD.make_sourcead(_rd(rd), afi, _ip(s), _ip(g)))
+            if x is not None:
+                exercise_nlri(ctx, x, 'factory:make_sourcead')
+            for asn in (0, 65000, 4294967295):
+                for name, k in (('make_sourcejoin', SourceJoin.make_sourcejoin), ('make_sharedjoin', SharedJoin.make_sharedjoin)):
+                    x = try_build(ctx, name, lambda: k(_rd(rd), afi, _ip(s), _ip(g), asn))
+                    if x is not None:
+                        exercise_nlri(ctx, x, 'factory:' + name)
+        rd_l4(ctx, 'make_sourcead', lambda rd: SourceAD.make_sourcead(_rd(rd), afi, _ip(s), _ip(g)))
+        rd_l4(ctx, 'make_sourcejoin', lambda rd: SourceJoin.make_sourcejoin(_rd(rd), afi, _ip(s), _ip(g), 65000))
+        rd_l4(ctx, 'make_sharedjoin', lambda rd: SharedJoin.make_sharedjoin(_rd(rd), afi, _ip(s), _ip(g), 65000))
+    a = SourceAD.make_sourcead(_rd(RD_SET[0]), AFI.ipv4, _ip('10.1.2.3'), _ip('232.1.1.1'))
+    b = SourceAD.make_sourcead(_rd(RD_SET[0]), AFI.ipv6, _ip('10.1.2.3'), _ip('232.1.1.1'))
+    check_l4_pair(ctx, a, b, 'family', {'class': 'nlri:ipv4/mcast-vpn', 'factory': 'make_sourcead'})
+
+
+def run_mup(ctx: Ctx) -> None:
+    from exabgp.bgp.message.update.nlri.mup.dsd import DirectSegmentDiscoveryRoute as DSD
+    from exabgp.bgp.message.update.nlri.mup.isd import InterworkSegmentDiscoveryRoute as ISD
+    from exabgp.bgp.message.update.nlri.mup.t1st import Type1SessionTransformedRoute as T1
+    from exabgp.bgp.message.update.nlri.mup.t2st import Type2SessionTransformedRoute as T2
+    from exabgp.protocol.family import AFI
+
+    for afi, ip, ln, ep in ((AFI.ipv4, '10.1.2.0', 24, '10.9.9.9'), (AFI.ipv4, '0.0.0.0', 0, '0.0.0.0'), (AFI.ipv4, '10.1.2.3', 32, '255.255.255.255'), (AFI.ipv6, '2001:db8::', 32, '2001:db8::9'), (AFI.ipv6, '::', 0, '::'), (AFI.ipv6, '2001:db8::1', 128, '2001:db8::9')):
+        v6 = afi == AFI.ipv6
+        full = 128 if v6 else 32
+        for rd in RD_SET[:3]:
+            for name, fn in (
+                ('make_dsd', lambda: DSD.make_dsd(_rd(rd), _ip(ep), afi)),
+                ('make_isd', lambda: ISD.make_isd(_rd(rd), ln, _ip(ip), afi)),
+                ('make_t1st', lambda: T1.make_t1st(_rd(rd), ln, _ip(ip), 12345, 9, full, _ip(ep), 0, b'', afi)),
+                ('make_t1st', lambda: T1.make_t1st(_rd(rd), ln, _ip(ip), 0, 0, full, _ip(ep), full, _ip(ep), afi)),
+                ('make_t1st', lambda: T1.make_t1st(_rd(rd), ln, _ip(ip), 0xFFFFFFFF, 255, full, _ip(ep), 0, b'', afi)),
+                ('make_t2st', lambda: T2.make_t2st(_rd(rd), full, _ip(ep), 0, afi)),
+                ('make_t2st', lambda: T2.make_t2st(_rd(rd), full + 32, _ip(ep), 0xFFFFFFFF, afi)),
+                ('make_t2st', lambda: T2.make_t2st(_rd(rd), full + 8, _ip(ep), 0xAB, afi)),
+            ):
+                x = try_build(ctx, name, fn)
+                if x is not None:
+                    exercise_nlri(ctx, x, 'factory:' + name)
+        rd_l4(ctx, 'make_dsd', lambda rd: DSD.make_dsd(_rd(rd), _ip(ep), afi))
+        rd_l4(ctx, 'make_isd', lambda rd: ISD.make_isd(_rd(rd), ln, _ip(ip), afi))
+        rd_l4(ctx, 'make_t1st', lambda rd: T1.make_t1st(_rd(rd), ln, _ip(ip), 1, 1, full, _ip(ep), 0, b'', afi))
+        rd_l4(ctx, 'make_t2st', lambda rd: T2.make_t2st(_rd(rd), full, _ip(ep), 0, afi))
+    for a, b, what in ((('10.1.2.0', 24), ('10.1.3.0', 24), 'prefix-address'), (('10.1.2.0', 24), ('10.1.2.0', 25), 'prefix-mask'), (('0.0.0.0', 0), ('0.0.0.0', 1), 'prefix-mask')):
+        xa = try_build(ctx, 'make_isd', lambda: ISD.make_isd(_rd(RD_SET[0]), a[1], _ip(a[0]), AFI.ipv4))
+        xb = try_build(ctx, 'make_isd', lambda: ISD.make_isd(_rd(RD_SET[0]), b[1], _ip(b[0]), AFI.ipv4))
+        if xa is not None and xb is not None:
+            check_l4_pair(ctx, xa, xb, what, {'class': 'nlri:ipv4/mup', 'factory': 'make_isd'})
+        xa = try_build(ctx, 'make_t1st', lambda: T1.make_t1st(_rd(RD_SET[0]), a[1], _ip(a[0]), 1, 1, 32, _ip('10.9.9.9'), 0, b'', AFI.ipv4))
+        xb = try_build(ctx, 'make_t1st', lambda: T1.make_t1st(_rd(RD_SET[0]), b[1], _ip(b[0]), 1, 1, 32, _ip('10.9.9.9'), 0, b'', AFI.ipv4))
+        if xa is not None and xb is not None:
+            check_l4_pair(ctx, xa, xb, what, {'class': 'nlri:ipv4/mup', 'factory': 'make_t1st'})
+    # T1ST: same prefix, different TEID/QFI/endpoint: the class decides; equal objects are held to L3 by the contract
+    xa = try_build(ctx, 'make_t1st', lambda: T1.make_t1st(_rd(RD_SET[0]), 24, _ip('10.1.2.0'), 1, 1, 32, _ip('10.9.9.9'), 0, b'', AFI.ipv4))
+    xb = try_build(ctx, 'make_t1st', lambda: T1.make_t1st(_rd(RD_SET[0]), 24, _ip('10.1.2.0'), 2, 3, 32, _ip('10.9.9.8'), 0, b'', AFI.ipv4))
+    if xa is not None and xb is not None:
+        eq = check_eq_pair(ctx, xa, xb, 'nlri:ipv4/mup', {'class': 'nlri:ipv4/mup', 'pair': 'T1ST same prefix, different teid/qfi/endpoint', 'a': laws.safe_repr(xa), 'b': laws.safe_repr(xb)})
+        ctx.res.count('mup-t1st-variant-' + ('equal' if eq else 'unequal'))
+
+
+def run_srpolicy(ctx: Ctx) -> None:
+    from exabgp.bgp.message.update.nlri.sr_policy import SRPolicyNLRI
+    from exabgp.protocol.family import AFI
+
+    for afi, eps in ((AFI.ipv4, ('0.0.0.0', '10.1.2.3', '255.255.255.255')), (AFI.ipv6, ('::', '2001:db8::1', 'ffff:ffff:ffff:ffff:ffff:ffff:ffff:ffff'))):
+        for dist in (0, 1, 0xFFFFFFFF):
+            for color in (0, 100, 0xFFFFFFFF):
+                for ep in eps:
+                    x = try_build(ctx, 'srpolicy.create', lambda: SRPolicyNLRI.create(afi, dist, color, ep))
+                    if x is not None:
+                        exercise_nlri(ctx, x, 'factory:create')
+        a = SRPolicyNLRI.create(afi, 1, 100, eps[1])
+        check_l4_pair(ctx, a, SRPolicyNLRI.create(afi, 2, 100, eps[1]), 'rd', {'class': laws.nlri_label(a), 'note': 'distinguisher'})
+        check_l4_pair(ctx, a, SRPolicyNLRI.create(afi, 1, 100, eps[2]), 'prefix-address', {'class': laws.nlri_label(a), 'note': 'endpoint'})
+
+
+FLOW_MATCH = [
+    'destination 10.0.0.0/24;', 'destination 0.0.0.0/0;', 'destination 10.1.2.3/32;', 'source 10.0.0.0/8;', 'source 10.0.0.1/32; destination 10.0.0.2/32;',
+    'port =80;', 'port [ =80 =8080 ];', 'destination-port [ >8080&<8088 =3128 ];', 'source-port >1024;', 'source-port [ =0 =65535 ];',
+    'protocol tcp;', 'protocol [ udp tcp ];', 'protocol [ !=tcp ];', 'packet-length [ >200&<300 >400&<500 ];', 'packet-length =65535;', 'dscp 10;', 'dscp [ =0 =63 ];',
+    'icmp-type echo-request;', 'icmp-code [ =0 =255 ];', 'fragment [ last-fragment ];', 'fragment [ dont-fragment is-fragment first-fragment ];',
+    'tcp-flags [ syn ];', 'tcp-flags [ fin&push =ack !rst ];', 'port [ >=1&<=65535 ];', 'destination 192.168.0.0/16; port =80; protocol tcp; tcp-flags [ syn ];',
+]
+FLOW6_MATCH = [
+    'destination 2001:db8::/32;', 'source ::1/128/120;', 'destination 2a02:b80:15::7aca:39ff:feae:a87a/128/0;', 'destination ::/0;', 'source 2001:db8:1::/48; next-header udp;',
+    'source 2001:db8:1::/48; traffic-class 101;', 'source 2001:db8:1::/48; flow-label 2013;', 'source 2001:db8:1::/48; flow-label [ =0 =1048575 ];', 'source 2001:db8::/64/32; next-header tcp; port =80;',
+]
+
+
+def flow_text(matches: list, rd: str | None = None) -> str:
+    out = ['flow {']
+    for i, m in enumerate(matches):
+        out.append('  route f%d { %s match { %s } then { discard; } }' % (i, f'rd {rd};' if rd else '', m))
+    out.append('}')
+    return '\n'.join(out)
+
+
+def run_flow(ctx: Ctx) -> None:
+    def load(matches, rd, fams):
+        routes = []
+        for m in matches:
+            try:
+                conf = exa.load_config(exa.neighbor_text(families=fams, body=flow_text([m], rd)))
+                routes.extend((m, r) for r in list(conf.neighbors.values())[0].routes)
+            except Exception as e:  # noqa
+                ctx.res.count('text-refused')
+                ctx.res.extra.setdefault('text_refused', []).append((m + ' => ' + str(e).strip().split('\n')[-1])[:200])
+        return routes
+
+    long_ports = 'port [ %s ];' % ' '.join('=%d' % (1000 + i) for i in range(90))  # 90 * 3 bytes > 255: extended length form
+    mid_ports = 'port [ %s ];' % ' '.join('=%d' % (1000 + i) for i in range(79))  # 239..240 bytes: the length form boundary
+    mid2_ports = 'port [ %s ];' % ' '.join('=%d' % (1000 + i) for i in range(80))
+    sets = [
+        (FLOW_MATCH + [long_ports, mid_ports, mid2_ports], None, [(1, 133)]),
+        (FLOW_MATCH[:12] + [long_ports], '65000:1', [(1, 134)]),
+        (FLOW6_MATCH, None, [(2, 133)]),
+        (FLOW6_MATCH[:5], '1.2.3.4:5', [(2, 134)]),
+    ]
+    for matches, rd, fams in sets:
+        for m, r in load(matches, rd, fams):
+            exercise_nlri(ctx, r.nlri, 'text', 'flow route { %smatch { %s } }' % (f'rd {rd}; ' if rd else '', m))
+            ctx.res.count('flow-nlri-bytes-%s' % ('>=256' if len(bytes(r.nlri.pack_nlri(ctx.sessions['plain']))) > 257 else ('>=240' if len(bytes(r.nlri.pack_nlri(ctx.sessions['plain']))) > 240 else '<240')))
+    # L4: RD (flow-vpn) and destination prefix
+    for fams, m in (([(1, 134)], 'destination 10.0.0.0/24;'), ([(2, 134)], 'destination 2001:db8::/32;')):
+        got = [load([m], rd, fams) for rd in ('65000:1', '65000:2', '1.2.3.4:1', '70000:1')]
+        got = [g[0][1].nlri for g in got if g]
+        for o in got[1:]:
+            check_l4_pair(ctx, got[0], o, 'rd', {'class': laws.nlri_label(got[0]), 'text': m})
+    for fams, ms in (([(1, 133)], ('destination 10.0.0.0/24;', 'destination 10.0.1.0/24;', 'destination 10.0.0.0/25;')), ([(2, 133)], ('destination 2001:db8::/32;', 'destination 2001:db9::/32;', 'destination 2001:db8::/33;'))):
+        got = [load([m], None, fams) for m in ms]
+        got = [g[0][1].nlri for g in got if g]
+        if len(got) == 3:
+            check_l4_pair(ctx, got[0], got[1], 'prefix-address', {'class': laws.nlri_label(got[0]), 'text': ms[1]})
+            check_l4_pair(ctx, got[0], got[2], 'prefix-mask', {'class': laws.nlri_label(got[0]), 'text': ms[2]})
+    # family: the same rule as flow and flow-vpn
+    a = load(['destination 10.0.0.0/24;'], None, [(1, 133)])
+    b = load(['destination 10.0.0.0/24;'], '0:0', [(1, 134)])
+    if a and b:
+        check_l4_pair(ctx, a[0][1].nlri, b[0][1].nlri, 'family', {'class': 'nlri:ipv4/flow'})
+
+
+def run_other_nlri(ctx: Ctx, which=None) -> None:
+    runs = {'evpn': run_evpn, 'vpls': run_vpls, 'rtc': run_rtc, 'mvpn': run_mvpn, 'mup': run_mup, 'srpolicy': run_srpolicy, 'flow': run_flow}
+    for name, fn in runs.items():
+        if which and name not in which:
+            continue
+        try:
+            fn(ctx)
+        except Exception as e:  # noqa
+            import traceback
+
+            ctx.res.inconclusive.append(f'generator {name} failed: {type(e).__name__}: {e} {traceback.format_exc()[-300:]}')
+
+
+# ============================================================================== attributes
+
+
+def attr_label_of(a) -> str:
+    code = int(a.ID)
+    return 'attr:%d' % code if type(a).__name__ != 'GenericAttribute' else 'attr:generic'
+
+
+def attr_sessions(ctx: Ctx, code: int) -> list:
+    out = [('plain', ctx.sessions['plain'])]
+    if code in (2, 7, 17, 18):
+        out.append(('asn2', ctx.sessions['asn2']))
+    return out
+
+
+def decode_attr_bytes(b: bytes, code: int, neg):
+    """attribute bytes produced by pack_attribute -> the decoded attribute of that code (production decoders)"""
+    return laws.decode_attr_any(b, code, neg)
+
+
+def exercise_attr(ctx: Ctx, a, src: str, text: str | None = None) -> None:
+    code = int(a.ID)
+    label = attr_label_of(a)
+    if label == 'attr:generic' and code in ctx.reg['attr']:
+        # `attribute [ 0x20 0xc0 0x... ]`: the generic syntax used for a code ExaBGP knows decodes as the typed
+        # attribute; the project's own self check (check_generation) whitelists exactly this, so it is logged
+        ctx.res.count('generic-syntax-for-known-code:%d' % code)
+        return
+    if label == 'attr:generic' and not int(a.FLAG) & 0x20:
+        # RFC 4271 9: an unrecognised optional transitive attribute is passed on with the Partial bit set, and
+        # ExaBGP sets it when it decodes one; the law is asked of the attribute as it exists after that step
+        from exabgp.bgp.message.update.attribute.generic import GenericAttribute
+
+        ctx.res.count('generic-attribute-partial-bit-normalised')
+        a = GenericAttribute.make_generic(code, int(a.FLAG) | 0x20, bytes(a._packed))
+    for sname, neg in attr_sessions(ctx, code):
+        wit = {'class': label, 'type': type(a).__name__, 'source': src, 'session': sname, 'object': laws.safe_repr(a)}
+        if text:
+            wit['text'] = text[:400]
+        before = M.ticks
+        try:
+            with laws.armed():
+                b = bytes(a.pack_attribute(neg))
+        except LawViolation as v:
+            ctx.law(v, wit)
+            continue
+        except NotImplementedError:
+            ctx.res.count('pack_attribute-not-implemented:' + label)
+            return
+        except Exception as e:  # noqa
+            ctx.bad(f'C15/raises:{label}:{type(e).__name__}', f'pack_attribute raises {type(e).__name__}: {str(e)[:160]}', wit, label, 'L1')
+            continue
+        if not b:
+            ctx.res.count('attr-not-sent:' + label)
+            continue
+        if M.ticks == before:
+            ctx.res.count('contract-not-evaluated:' + label)
+            ok, what, w2 = laws.check_l1_attr(a, neg, b)
+            if not ok:
+                key = f'C15/raises:{label}:{w2["raises"]}' if 'raises' in w2 else f'C15/roundtrip-attr:{code}{laws.attr_key_suffix(code, neg)}'
+                ctx.bad(key, what, dict(wit, **w2), label, 'L1')
+                continue
+        wit['bytes'] = hx(b)
+        ctx.ok(label, 'L1', (label, 'L1', sname, hx(b)))
+        # ---- L2
+        try:
+            y = decode_attr_bytes(b, code, neg)
+            b2 = bytes(y.pack_attribute(neg))
+        except Exception as e:  # noqa
+            ctx.bad(f'C15/raises:{label}:{type(e).__name__}', f're-encoding the decoded attribute raises {type(e).__name__}: {str(e)[:160]}', wit, label, 'L2')
+            continue
+        if b2 != b:
+            ctx.bad('C15/reencode-differs:' + label + laws.attr_key_suffix(code, neg), f'encode(decode(b)) != b for b produced by ExaBGP: {hx(b)[:120]} -> {hx(b2)[:120]}', dict(wit, reencoded=hx(b2)), label, 'L2')
+        else:
+            ctx.ok(label, 'L2', (label, 'L2', sname, hx(b)))
+        # ---- L3
+        check_eq_pair(ctx, a, y, label, dict(wit, pair=f'{src} vs decode'))
+        # ---- L5
+        key = (label, sname, b)
+        if key not in ctx.seen:
+            ctx.seen.add(key)
+            check_l5(ctx, label, lambda: decode_attr_bytes(b, code, neg), wit, case_id(label, sname, b))
+
+
+def attr_factory_objects(ctx: Ctx) -> list:
+    from exabgp.bgp.message.open.asn import ASN
+    from exabgp.bgp.message.update.attribute.aggregator import Aggregator
+    from exabgp.bgp.message.update.attribute.aigp import AIGP
+    from exabgp.bgp.message.update.attribute.aspath import AS4Path, ASPath, CONFED_SEQUENCE, CONFED_SET, SEQUENCE, SET
+    from exabgp.bgp.message.update.attribute.atomicaggregate import AtomicAggregate
+    from exabgp.bgp.message.update.attribute.clusterlist import ClusterID, ClusterList
+    from exabgp.bgp.message.update.attribute.community.extended.communities import ExtendedCommunities, ExtendedCommunitiesIPv6
+    from exabgp.bgp.message.update.attribute.community.extended.community import ExtendedCommunity, ExtendedCommunityIPv6
+    from exabgp.bgp.message.update.attribute.community.initial.communities import Communities
+    from exabgp.bgp.message.update.attribute.community.initial.community import Community
+    from exabgp.bgp.message.update.attribute.community.large.communities import LargeCommunities
+    from exabgp.bgp.message.update.attribute.community.large.community import LargeCommunity
+    from exabgp.bgp.message.update.attribute.generic import GenericAttribute
+    from exabgp.bgp.message.update.attribute.localpref import LocalPreference
+    from exabgp.bgp.message.update.attribute.med import MED
+    from exabgp.bgp.message.update.attribute.nexthop import NextHop
+    from exabgp.bgp.message.update.attribute.origin import Origin
+    from exabgp.bgp.message.update.attribute.originatorid import OriginatorID
+    from exabgp.bgp.message.update.attribute.pmsi import PMSI, PMSIIngressReplication, PMSINoTunnel
+    from exabgp.bgp.message.update.attribute.sr.labelindex import SrLabelIndex
+    from exabgp.bgp.message.update.attribute.sr.prefixsid import PrefixSid
+    from exabgp.bgp.message.update.attribute.sr.srgb import SrGb
+    from exabgp.protocol.ip import IPv4
+
+    r = ctx.r
+    U32 = [0, 1, 100, 0x7FFFFFFF, 0xFFFFFFFF]
+    out = []
+    add = lambda name, fn: out.append((name, fn))  # noqa: E731
+    for v in (0, 1, 2):
+        add('Origin.from_int', lambda v=v: Origin.from_int(v))
+    for v in U32 + [r.getrandbits(32) for _ in range(3 * ctx.scale)]:
+        add('MED.from_int', lambda v=v: MED.from_int(v))
+        add('LocalPreference.from_int', lambda v=v: LocalPreference.from_int(v))
+    for v in (0, 1, 77, 2**32, 2**64 - 1, r.getrandbits(64)):
+        add('AIGP.from_int', lambda v=v: AIGP.from_int(v))
+    for ip in ('0.0.0.0', '1.2.3.4', '255.255.255.255', '2001:db8::1'):
+        add('NextHop.from_string', lambda ip=ip: NextHop.from_string(ip))
+    for ip in ('0.0.0.0', '9.9.9.9', '255.255.255.255'):
+        add('OriginatorID.from_string', lambda ip=ip: OriginatorID.from_string(ip))
+    add('AtomicAggregate.make', lambda: AtomicAggregate.make_atomic_aggregate())
+    for asn in (0, 1, 65000, 65535, 23456, 65536, 70000, 4294967295):
+        for ip in ('0.0.0.0', '1.2.3.4', '255.255.255.255'):
+            add('Aggregator.make_aggregator', lambda asn=asn, ip=ip: Aggregator.make_aggregator(ASN(asn), IPv4.from_string(ip)))
+    for n in (1, 2, 63, 64, 65, 100):
+        add('ClusterList.make_clusterlist', lambda n=n: ClusterList.make_clusterlist([ClusterID.from_string('10.0.%d.%d' % (i // 250, i % 250 + 1)) for i in range(n)]))
+    # AS_PATH shapes, 2-byte only and with 4-byte ASNs, packed either way
+    small = [1, 64512, 65000, 65535, 23456]
+    big = [65536, 70000, 4200000000, 4294967295]
+
+    def seq(kind, vals):
+        return kind([ASN(v) for v in vals])
+
+    shapes = [
+        [],
+        [(SEQUENCE, [65000])],
+        [(SEQUENCE, small)],
+        [(SEQUENCE, [65000, 64999]), (SET, [1, 2])],
+        [(CONFED_SEQUENCE, [65001, 65002]), (SEQUENCE, [3])],
+        [(CONFED_SET, [65001]), (CONFED_SEQUENCE, [65002]), (SEQUENCE, [1]), (SET, [2, 3])],
+        [(SEQUENCE, [100 + i for i in range(255)])],
+        [(SEQUENCE, [100 + i for i in range(256)])],
+        [(SEQUENCE, [100 + i for i in range(300)])],
+        [(SEQUENCE, big)],
+        [(SEQUENCE, [65000, 70000])],
+        [(SEQUENCE, [70000, 65000]), (SET, [4294967295, 1])],
+        [(SEQUENCE, [23456, 70000])],
+        [(SEQUENCE, [1000 + i for i in range(130)] + [70000])],
+    ]
+    for _ in range(6 * ctx.scale):
+        shapes.append([(r.choice([SEQUENCE, SEQUENCE, SET, CONFED_SEQUENCE]), [r.choice(small + big) for _ in range(r.randrange(1, 6))]) for _ in range(r.randrange(1, 4))])
+    for sh in shapes:
+        has_big = any(v > 65535 for _, vals in sh for v in vals)
+        for asn4 in (True, False):
+            if has_big and not asn4:
+                continue  # a 2-byte packing of a 4-byte AS does not exist
+            add('ASPath.make_aspath(asn4=%s)' % asn4, lambda sh=sh, asn4=asn4: ASPath.make_aspath([seq(k, v) for k, v in sh], asn4=asn4))
+        add('AS4Path.make_aspath', lambda sh=sh: AS4Path.make_aspath([seq(k, v) for k, v in sh]))
+    # communities
+    for n in (1, 2, 63, 64, 100):
+        add('Communities.make_communities', lambda n=n: Communities.make_communities([Community.make_community(65000 - i, i) for i in range(n)]))
+    add('Communities.make_communities', lambda: Communities.make_communities([Community.make_community(0, 0), Community.make_community(65535, 65535), Community.make_wellknown(0xFFFFFF01), Community.make_wellknown(0xFFFFFF02), Community.make_wellknown(0xFFFFFF03)]))
+    add('Communities.make_communities', lambda: Communities.make_communities([Community.make_community(2, 2), Community.make_community(1, 1), Community.make_community(1, 1)]))
+    for n in (1, 2, 21, 22, 50):
+        add('LargeCommunities.make_large_communities', lambda n=n: LargeCommunities.make_large_communities([LargeCommunity.make_large_community(4294967295 - i, i, 0) for i in range(n)]))
+    add('LargeCommunities.make_large_communities', lambda: LargeCommunities.make_large_communities([LargeCommunity.make_large_community(0, 0, 0), LargeCommunity.make_large_community(2, 1, 0), LargeCommunity.make_large_community(1, 2, 3)]))
+    for n in (1, 2, 31, 32, 60):
+        add('ExtendedCommunities.make', lambda n=n: ExtendedCommunities.make_extended_communities([ExtendedCommunity.unpack_attribute(bytes([0, 2]) + struct.pack('!HL', 65000, i), None) for i in range(n)]))
+    add('ExtendedCommunities.make', lambda: ExtendedCommunities.make_extended_communities([ExtendedCommunity.unpack_attribute(bytes([t, s]) + bytes([1, 2, 3, 4, 5, 6]), None) for t, s in ((0x80, 6), (0x00, 3), (0x01, 2), (0x43, 1), (0x03, 0x0C), (0x06, 0))]))
+    for n in (1, 2, 13):
+        add('ExtendedCommunitiesIPv6.make', lambda n=n: ExtendedCommunitiesIPv6.make_extended_communities_ipv6([ExtendedCommunityIPv6.unpack_attribute(bytes([0, 0x0C]) + ip_pton('2001:db8::%x' % (i + 1)) + struct.pack('!H', i), None) for i in range(n)]))
+    # PMSI
+    for tt in range(0, 9):
+        for flags, label in ((0, 0), (1, 16), (255, 1048575)):
+            tunnel = {0: b'', 6: bytes([10, 0, 0, 1])}.get(tt, bytes(range(tt + 3)))
+            add('PMSI.make_pmsi', lambda tt=tt, flags=flags, label=label, tunnel=tunnel: PMSI.make_pmsi(tt, flags, label, tunnel))
+    add('PMSI.make_pmsi(raw_label)', lambda: PMSI.make_pmsi(6, 0, 0, bytes([10, 0, 0, 1]), raw_label=0x123456))
+    add('PMSINoTunnel.make_no_tunnel', lambda: PMSINoTunnel.make_no_tunnel(0, 0))
+    add('PMSINoTunnel.make_no_tunnel', lambda: PMSINoTunnel.make_no_tunnel(1, 1048575))
+    add('PMSINoTunnel.make_no_tunnel(raw)', lambda: PMSINoTunnel.make_no_tunnel(0, 0, raw_label=0xFFFFFF))
+    for ip in ('0.0.0.0', '10.0.0.1', '255.255.255.255'):
+        add('PMSIIngressReplication.make', lambda ip=ip: PMSIIngressReplication.make_ingress_replication(ip, 0, 16))
+    add('PMSIIngressReplication.make(raw)', lambda: PMSIIngressReplication.make_ingress_replication('10.0.0.1', 1, 0, raw_label=0x000011))
+    # prefix SID
+    for idx in (0, 1, 0xFFFFFFFF):
+        add('PrefixSid(labelindex)', lambda idx=idx: PrefixSid([SrLabelIndex.make_labelindex(idx)]))
+        add('PrefixSid(labelindex,srgb)', lambda idx=idx: PrefixSid([SrLabelIndex.make_labelindex(idx), SrGb.make_srgb([(16000, 8000), (0, 1), (0xFFFFFF, 0xFFFFFF)])]))
+    # unknown transitive attribute
+    for code, flag, data in ((99, 0xC0, b''), (99, 0xC0, b'\x01'), (200, 0xE0, bytes(300)), (255, 0xC0, bytes(range(255)))):
+        add('GenericAttribute.make_generic', lambda code=code, flag=flag, data=data: GenericAttribute.make_generic(code, flag, data))
+    return out
+
+
+ATTR_TEXT = [
+    'origin igp', 'origin egp', 'origin incomplete', 'med 0', 'med 4294967295', 'local-preference 0', 'local-preference 4294967295',
+    'as-path [ ]', 'as-path [ 65000 ]', 'as-path [ 65000 64999 1 ]', 'as-path [ 65000 64999 ] ( 1 2 )', 'as-path [ 70000 ]', 'as-path [ 65000 4294967295 ]',
+    'atomic-aggregate', 'aggregator ( 65000:1.2.3.4 )', 'aggregator ( 70000:1.2.3.4 )', 'aggregator ( 4294967295:255.255.255.255 )',
+    'community [ 1:2 ]', 'community [ 0:0 65535:65535 no-export no-advertise no-export-subconfed no-peer blackhole ]', 'community [ 2:2 1:1 ]',
+    'community [ %s ]' % ' '.join('65000:%d' % i for i in range(70)),
+    'large-community [ 1:2:3 ]', 'large-community [ 4294967295:4294967295:4294967295 0:0:0 ]', 'large-community [ %s ]' % ' '.join('65000:1:%d' % i for i in range(30)),
+    'extended-community [ target:65000:1 ]', 'extended-community [ target:1.2.3.4:5 origin:65000:1 origin:1.2.3.4:5 target:70000:3 ]',
+    'extended-community [ target4:70000:3 origin4:70000:3 ]', 'extended-community [ 0x0002fde800000001 0x8006000000000000 ]',
+    'extended-community [ l2info:19:0:1500:111 ]', 'extended-community [ bandwidth:65000:1000 ]',
+    'extended-community [ %s ]' % ' '.join('target:65000:%d' % i for i in range(40)),
+    'originator-id 0.0.0.0', 'originator-id 255.255.255.255', 'cluster-list [ 1.1.1.1 ]', 'cluster-list [ 1.1.1.1 2.2.2.2 255.255.255.255 ]',
+    'aigp 0', 'aigp 18446744073709551615', 'aigp 77',
+    'attribute [ 0x99 0xc0 0x0102 ]', 'attribute [ 0x20 0xc0 0x0000000100000002000000030000000A0000000B0000000C ]',
+    'bgp-prefix-sid [ 10, [ ( 16000,8000 ) ] ]', 'bgp-prefix-sid [ 0 ]',
+]
+
+
+def run_attr_text(ctx: Ctx, items: list) -> None:
+    for i, t in enumerate(items):
+        line = f'route 10.{i // 250}.{i % 250}.0/24 next-hop 1.2.3.4 {t};'
+        try:
+            conf = exa.load_config(exa.neighbor_text(families=[(1, 1)], body='static { %s }' % line))
+            routes = list(list(conf.neighbors.values())[0].routes)
+        except Exception as e:  # noqa
+            ctx.res.count('text-refused')
+            ctx.res.extra.setdefault('text_refused', []).append((t[:80] + ' => ' + str(e).strip().split('\n')[-1])[:220])
+            continue
+        for r in routes:
+            for code, a in r.attributes.items():
+                if code in (3,) and i:
+                    continue
+                if hasattr(a, 'pack_attribute') and int(getattr(a, 'ID', 0xFFFF)) < 0xFF00:
+                    exercise_attr(ctx, a, 'text', t)
+
+
+def run_attr_factories(ctx: Ctx) -> None:
+    for name, fn in attr_factory_objects(ctx):
+        a = try_build(ctx, name, fn)
+        if a is not None:
+            exercise_attr(ctx, a, 'factory:' + name)
+    run_attr_text(ctx, ATTR_TEXT)
+    # objects built by different paths: equal ones are held to L3 by the contract on ==
+    from exabgp.bgp.message.open.asn import ASN
+    from exabgp.bgp.message.update.attribute.aspath import ASPath, SEQUENCE
+    from exabgp.bgp.message.update.attribute.community.initial.communities import Communities
+    from exabgp.bgp.message.update.attribute.community.initial.community import Community
+    from exabgp.bgp.message.update.attribute.collection import AttributeCollection
+    from exabgp.bgp.message.update.attribute.med import MED
+    from exabgp.bgp.message.update.attribute.origin import Origin
+
+    neg = ctx.sessions['plain']
+    pairs = [
+        ('as-path asn4 vs asn2 packing', ASPath.make_aspath([SEQUENCE([ASN(65000)])], asn4=True), ASPath.make_aspath([SEQUENCE([ASN(65000)])], asn4=False)),
+        ('communities built in another order', Communities.make_communities([Community.make_community(1, 1), Community.make_community(2, 2)]), Communities.make_communities([Community.make_community(2, 2), Community.make_community(1, 1)])),
+        ('communities decoded in wire order', Communities.make_communities([Community.make_community(1, 1), Community.make_community(2, 2)]), laws.decode_attr_tlv(0xC0, 8, bytes([0, 2, 0, 2, 0, 1, 0, 1]), neg)),
+    ]
+    for what, a, b in pairs:
+        eq = check_eq_pair(ctx, a, b, attr_label_of(a), {'class': attr_label_of(a), 'pair': what, 'a': laws.safe_repr(a), 'b': laws.safe_repr(b)})
+        ctx.res.count(f'attr-pair-{"equal" if eq else "unequal"}:{what}')
+    # AttributeCollection: == compares communities as a set, hash/index are built from the text rendering
+    def coll(comm):
+        c = AttributeCollection()
+        c.add(Origin.from_int(0))
+        c.add(MED.from_int(5))
+        c.add(comm)
+        return c
+
+    ca, cb = coll(pairs[2][1]), coll(pairs[2][2])
+    eq = check_eq_pair(ctx, ca, cb, 'route:attributes', {'class': 'route:attributes', 'pair': 'same community set, other wire order', 'a': laws.safe_repr(ca), 'b': laws.safe_repr(cb)})
+    ctx.res.count('attribute-collection-order-variant-' + ('equal' if eq else 'unequal'))
+
+
+# ============================================================================== decoding source: qa corpus + mutations
+
+
+def corpus_slices() -> tuple[list, list]:
+    """-> (nlri fields [(src, afi, safi, bytes, withdraw)], attribute slices [(src, flag, code, value, raw)]) deduplicated"""
+    nl, at, seen = [], [], set()
+    for m in corpus.qa_messages():
+        if m['type'] != 2:
+            continue
+        try:
+            wd, attrs, nlri = laws.split_update(m['body'])
+            tl = laws.attr_tlvs(attrs)
+        except ValueError:
+            continue
+        fields = []
+        if wd:
+            fields.append((1, 1, bytes(wd), True))
+        if nlri:
+            fields.append((1, 1, bytes(nlri), False))
+        for flag, code, value, raw in tl:
+            try:
+                if code == 14:
+                    afi, safi, _, data = laws.mp_reach_parts(value)
+                    fields.append((afi, safi, bytes(data), False))
+                elif code == 15:
+                    afi, safi, data = laws.mp_unreach_parts(value)
+                    fields.append((afi, safi, bytes(data), True))
+            except (ValueError, struct.error):
+                continue
+            if code not in (14, 15) and ('a', code, raw) not in seen:
+                seen.add(('a', code, raw))
+                at.append((m['src'], flag, code, bytes(value), bytes(raw)))
+        for f in fields:
+            if f[2] and ('n',) + f not in seen:
+                seen.add(('n',) + f)
+                nl.append((m['src'],) + f)
+    return nl, at
+
+
+def decode_field(afi, safi, data: bytes, addpath: bool, neg, withdraw: bool):
+    """a whole NLRI field -> [(consumed bytes, nlri)] or None when it does not decode to its end"""
+    from exabgp.bgp.message import Action
+    from exabgp.bgp.message.update.nlri.nlri import NLRI
+
+    out = []
+    act = Action.WITHDRAW if withdraw else Action.ANNOUNCE
+    guard = 0
+    while data:
+        guard += 1
+        if guard > 2000:
+            return None
+        try:
+            y, used, rest = laws.decode_one_nlri(afi, safi, data, addpath, neg, act)
+        except Exception:  # noqa
+            return None
+        if not used:
+            return None
+        if y is not NLRI.INVALID:
+            out.append((used, y))
+        data = rest
+    return out
+
+
+def mutate(r: random.Random, b: bytes) -> bytes:
+    if not b:
+        return b
+    m = bytearray(b)
+    k = r.randrange(6)
+    i = r.randrange(len(m))
+    if k == 0:
+        m[i] ^= 1 << r.randrange(8)
+    elif k == 1:
+        m[i] = r.choice([0, 1, 0x7F, 0x80, 0xFF])
+    elif k == 2:
+        m[i] = (m[i] + r.choice([1, -1])) & 0xFF
+    elif k == 3:
+        m[i] = r.randrange(256)
+    elif k == 4 and len(m) > 2:
+        j = r.randrange(len(m))
+        m[i], m[j] = m[j], m[i]
+    else:
+        for _ in range(2):
+            m[r.randrange(len(m))] = r.randrange(256)
+    return bytes(m)
+
+
+def exercise_decoded_nlri(ctx: Ctx, afi, safi, used: bytes, y, addpath: bool, neg, src: str) -> None:
+    label = laws.nlri_label(y)
+    try:
+        b1 = bytes(y.pack_nlri(neg))
+    except Exception as e:  # noqa
+        ctx.bad(f'C15/raises:{label}:{type(e).__name__}', f'pack_nlri of a decoded NLRI raises {type(e).__name__}: {str(e)[:140]}', {'class': label, 'source': src, 'bytes': hx(used), 'addpath': addpath}, label, 'L2')
+        return
+    sub = laws.nlri_sublabel(y)
+    if b1 != used:
+        ctx.res.count('non-canonical-input:' + label)
+        ctx.res.extra.setdefault('non_canonical_samples', []).append(f'{label} {src}: {hx(used)[:80]} -> {hx(b1)[:80]}')
+    else:
+        ctx.ok(label, 'L2', (label, 'L2', 'corpus', hx(used)))
+        if sub:
+            ctx.ok(sub, 'L2')
+    exercise_nlri(ctx, y, src, 'decoded from %s (addpath %s)' % (hx(used), addpath))
+
+
+def run_corpus_nlri(ctx: Ctx, part: int, parts: int) -> None:
+    nl, _ = corpus_slices()
+    for idx, (src, afi, safi, data, wd) in enumerate(nl):
+        if idx % parts != part:
+            continue
+        from exabgp.protocol.family import AFI, SAFI
+
+        a, s = AFI.from_int(afi), SAFI.from_int(safi)
+        if f'{a}/{s}' not in ctx.reg['nlri']:
+            ctx.res.count('corpus-unregistered-family')
+            continue
+        tries = [(False, ctx.sessions['plain'])]
+        if ctx.sessions['addpath'].addpath.send(a, s):
+            tries.append((True, ctx.sessions['addpath']))
+        decoded_any = False
+        for addpath, neg in tries:
+            got = decode_field(a, s, data, addpath, neg, wd)
+            if not got:
+                continue
+            decoded_any = True
+            for used, y in got:
+                exercise_decoded_nlri(ctx, a, s, used, y, addpath, neg, f'corpus:{src}')
+            # mutated but still decodable
+            for used, _ in got[:4]:
+                for _ in range(12 * ctx.scale):
+                    mb = mutate(ctx.r, used)
+                    if mb == used:
+                        continue
+                    g2 = decode_field(a, s, mb, addpath, neg, wd)
+                    if not g2:
+                        ctx.res.count('mutant-not-decodable')
+                        continue
+                    for u2, y2 in g2:
+                        exercise_decoded_nlri(ctx, a, s, u2, y2, addpath, neg, f'mutated:{src}')
+        if not decoded_any:
+            ctx.res.count('corpus-field-not-decodable')
+
+
+def lsattr_tlvs(value: bytes) -> list:
+    out, i = [], 0
+    while i + 4 <= len(value):
+        code, ln = struct.unpack('!HH', value[i : i + 4])
+        if i + 4 + ln > len(value):
+            break
+        out.append((code, bytes(value[i + 4 : i + 4 + ln])))
+        i += 4 + ln
+    return out
+
+
+def same_plain_object(a, b) -> tuple[bool, str]:
+    """equality for classes without __eq__: same type, same stored bytes, same content / json"""
+    if type(a).__name__ != type(b).__name__:
+        return False, f'type {type(a).__name__} != {type(b).__name__}'
+    pa, pb = getattr(a, '_packed', None), getattr(b, '_packed', None)
+    if pa is not None and pb is not None and bytes(pa) != bytes(pb):
+        return False, f'stored bytes {hx(pa)} != {hx(pb)}'
+    for name in ('content', 'json'):
+        try:
+            va = getattr(a, name)
+            vb = getattr(b, name)
+            va = va() if callable(va) else va
+            vb = vb() if callable(vb) else vb
+        except Exception:  # noqa
+            continue
+        if va != vb:
+            return False, f'{name} {str(va)[:80]} != {str(vb)[:80]}'
+    return True, ''
+
+
+def exercise_bgpls_tlv(ctx: Ctx, code: int, payload: bytes, src: str) -> None:
+    klass = ctx.reg['bgpls'].get(code)
+    label = 'bgpls:%d' % code if klass is not None else 'bgpls:generic'
+    if klass is None:
+        from exabgp.bgp.message.update.attribute.bgpls.linkstate import LinkState
+
+        klass = LinkState.get_ls_class(code)
+    wit = {'class': label, 'tlv': code, 'payload': hx(payload), 'source': src}
+    try:
+        x = klass.unpack_bgpls(payload)
+        if hasattr(x, 'flags'):
+            x.flags
+    except Exception:  # noqa
+        ctx.res.count('bgpls-tlv-not-decodable')
+        return
+    # L2: there is no encoder besides the stored payload
+    stored = bytes(getattr(x, '_packed', b''))
+    if stored != payload:
+        ctx.res.count('non-canonical-input:' + label)
+    else:
+        ctx.ok(label, 'L2', (label, 'L2', hx(payload)))
+    try:
+        y = klass.unpack_bgpls(stored)
+        same, why = same_plain_object(x, y)
+    except Exception as e:  # noqa
+        ctx.bad(f'C15/raises:{label}:{type(e).__name__}', f'decoding the stored payload again raises {type(e).__name__}', wit, label, 'L1')
+        return
+    if not same:
+        ctx.bad(f'C15/roundtrip-bgpls:{code}', f'decode(encode(x)) differs for BGP-LS TLV {code}: {why}', wit, label, 'L1')
+    else:
+        ctx.ok(label, 'L1', (label, 'L1', hx(payload)))
+    key = (label, payload)
+    if key not in ctx.seen:
+        ctx.seen.add(key)
+        check_l5(ctx, label, lambda: klass.unpack_bgpls(payload), wit, case_id(label, 'tlv', payload))
+
+
+def run_corpus_attrs(ctx: Ctx, part: int, parts: int) -> None:
+    from exabgp.bgp.message.update.attribute.attribute import Attribute
+
+    _, at = corpus_slices()
+    for idx, (src, flag, code, value, raw) in enumerate(at):
+        if idx % parts != part:
+            continue
+        variants = [(f'corpus:{src}', value)]
+        for _ in range(10 * ctx.scale):
+            mv = mutate(ctx.r, value)
+            if mv != value:
+                variants.append((f'mutated:{src}', mv))
+        for vsrc, v in variants:
+            done = False
+            for sname in ('plain', 'asn2'):
+                neg = ctx.sessions[sname]
+                if done:
+                    break
+                try:
+                    if not Attribute.registered(code, flag):
+                        col = laws.decode_attr_collection(bytes([flag & 0xEF | (0x10 if len(v) > 255 else 0), code]) + (struct.pack('!H', len(v)) if len(v) > 255 else bytes([len(v)])) + v, neg)
+                        if code not in col:
+                            raise KeyError(code)
+                        a = col[code]
+                    else:
+                        a = laws.decode_attr_tlv(flag, code, v, neg)
+                except Exception:  # noqa
+                    continue
+                if type(a).__name__ in ('Discard', 'TreatAsWithdraw'):
+                    continue
+                done = True
+                label = attr_label_of(a)
+                if code == 29:
+                    # LinkState: no pack_attribute; the TLVs it holds are the registry entries
+                    check_l5(ctx, label, lambda: laws.decode_attr_tlv(flag, code, v, neg), {'class': label, 'bytes': hx(v), 'source': vsrc}, case_id(label, sname, v))
+                    for tcode, payload in lsattr_tlvs(v):
+                        exercise_bgpls_tlv(ctx, tcode, payload, vsrc)
+                    continue
+                try:
+                    b1 = bytes(a.pack_attribute(neg))
+                except Exception as e:  # noqa
+                    ctx.bad(f'C15/raises:{label}:{type(e).__name__}', f'pack_attribute of a decoded attribute raises {type(e).__name__}: {str(e)[:140]}', {'class': label, 'source': vsrc, 'flag': flag, 'value': hx(v)}, label, 'L2')
+                    continue
+                hdr = bytes([flag, code]) + (struct.pack('!H', len(v)) if flag & 0x10 else bytes([len(v) & 0xFF]))
+                if b1 != hdr + v:
+                    ctx.res.count('non-canonical-input:' + label)
+                    ctx.res.extra.setdefault('non_canonical_samples', []).append(f'{label} {vsrc}: {hx(hdr + v)[:80]} -> {hx(b1)[:80]}')
+                else:
+                    ctx.ok(label, 'L2', (label, 'L2', 'corpus', hx(v)))
+                exercise_attr(ctx, a, vsrc, 'decoded from flag %02x value %s' % (flag, hx(v)))
+                if code in (16, 25):
+                    size = 8 if code == 16 else 20
+                    for i in range(0, len(v) - size + 1, size):
+                        exercise_extcomm(ctx, v[i : i + size], vsrc)
+                if code == 40:
+                    for sr in getattr(a, 'sr_attrs', []):
+                        exercise_sub_tlv(ctx, 'srid', sr, vsrc)
+            if not done:
+                ctx.res.count('corpus-attr-not-decodable' if vsrc.startswith('corpus') else 'mutant-not-decodable')
+
+
+# ============================================================================== sub-registries
+
+
+def exercise_sub_tlv(ctx: Ctx, kind: str, x, src: str) -> None:
+    """SR prefix-SID / tunnel-encap sub-TLVs: no registry decoder of their own is public; render determinism only"""
+    code = getattr(x, 'TLV', getattr(x, 'code', '?'))
+    label = f'{kind}:{code}'
+    rs = renderings(x)
+    ctx.ok(label, 'L5')
+    if hasattr(x, 'pack_tlv'):
+        try:
+            b = bytes(x.pack_tlv())
+            ctx.render[case_id(label, 'tlv', b)] = render_digest(rs)
+        except Exception:  # noqa
+            ctx.res.count('sub-tlv-pack-raises:' + label)
+
+
+def exercise_extcomm(ctx: Ctx, data: bytes, src: str) -> None:
+    from exabgp.bgp.message.update.attribute.community.extended.community import ExtendedCommunity, ExtendedCommunityIPv6
+
+    six = len(data) == 20
+    base = ExtendedCommunityIPv6 if six else ExtendedCommunity
+    regname = 'extcomm6' if six else 'extcomm'
+    k = (data[0] & 0x0F, data[1])
+    label = '%s:%d/%d' % (regname, k[0], k[1]) if k in ctx.reg[regname] else regname + ':generic'
+    wit = {'class': label, 'bytes': hx(data), 'source': src}
+    try:
+        c = base.unpack_attribute(data, None)
+    except Exception:  # noqa
+        ctx.res.count('extcomm-not-decodable')
+        return
+    try:
+        b1 = bytes(c.pack_attribute(None))
+    except Exception as e:  # noqa
+        ctx.bad(f'C15/raises:{label}:{type(e).__name__}', f'pack_attribute raises {type(e).__name__}', wit, label, 'L2')
+        return
+    if b1 != data:
+        ctx.res.count('non-canonical-input:' + label)
+    else:
+        ctx.ok(label, 'L2', (label, 'L2', hx(data)))
+    try:
+        c2 = base.unpack_attribute(b1, None)
+        b2 = bytes(c2.pack_attribute(None))
+    except Exception as e:  # noqa
+        ctx.bad(f'C15/raises:{label}:{type(e).__name__}', f'ExaBGP cannot decode the extended community it encoded: {type(e).__name__}: {str(e)[:100]}', dict(wit, encoded=hx(b1)), label, 'L1')
+        return
+    if b2 != b1:
+        ctx.bad('C15/reencode-differs:' + label, f'encode(decode(b)) != b: {hx(b1)} -> {hx(b2)}', dict(wit, encoded=hx(b1), reencoded=hx(b2)), label, 'L2')
+    eq = check_eq_pair(ctx, c, c2, label, dict(wit, pair='decode vs decode(encode)'))
+    if eq is False:
+        ctx.bad(f'C15/roundtrip-extcomm:{k[0]}/{k[1]}', f'decode(encode(x)) != x: {laws.safe_repr(c)} came back as {laws.safe_repr(c2)}', dict(wit, encoded=hx(b1)), label, 'L1')
+    elif eq:
+        ctx.ok(label, 'L1', (label, 'L1', hx(data)))
+    key = (label, data)
+    if key not in ctx.seen:
+        ctx.seen.add(key)
+        check_l5(ctx, label, lambda: base.unpack_attribute(data, None), wit, case_id(label, 'ec', data))
+
+
+def guess_args(fn, klass, r: random.Random, mode: int):
+    """arguments for a make_* factory from its annotations and parameter names; None when one cannot be guessed"""
+    import inspect
+
+    args = {}
+    for name, p in list(inspect.signature(fn).parameters.items()):
+        ann = str(p.annotation)
+        low = name.lower()
+        if p.default is not inspect.Parameter.empty and mode == 0:
+            continue
+        if 'dict' in ann or low == 'flags' and 'int' not in ann:
+            flags = getattr(klass, 'FLAGS', None)
+            if not flags:
+                return None
+            args[name] = {f: (mode % 2) for f in flags if f != 'RSV'}
+        elif 'list[float]' in ann or 'Sequence[float]' in ann:
+            args[name] = [0.0, 1000.0, 1e9][: 1 + mode] * 1 if 'unreserved' not in fn.__name__ else [float(i * mode) for i in range(8)]
+        elif 'list[tuple' in ann:
+            args[name] = [(16000, 8000)] if mode else [(0, 1)]
+        elif 'list[int]' in ann or 'Sequence[int]' in ann:
+            args[name] = [0, 1, 0xFFFF][: 1 + mode]
+        elif 'list[str]' in ann:
+            args[name] = ['1.2.3.4']
+        elif 'float' in ann:
+            args[name] = [0.0, 1000.0, 1.25e9][mode % 3]
+        elif 'bool' in ann:
+            args[name] = bool(mode % 2)
+        elif 'bytes' in ann or 'Buffer' in ann:
+            args[name] = [b'', b'\x01\x02\x03', bytes(range(16))][mode % 3] if 'sid' not in low else bytes(range(16))
+        elif 'int' in ann:
+            if 'mask' in low or 'flag' in low:
+                args[name] = [0, 0x80, 0xFF][mode % 3]
+            elif 'weight' in low or 'algo' in low or 'len' in low:
+                args[name] = [0, 1, 255][mode % 3]
+            else:
+                args[name] = [0, 1, 0xFFFF, 0xFFFFFF][mode % 4]
+        elif 'str' in ann or 'IP' in ann:
+            if any(t in low for t in ('ip', 'addr', 'router', 'sid', 'speaker')):
+                args[name] = ['1.2.3.4', '2001:db8::1', '255.255.255.255'][mode % 3]
+            elif 'area' in low:
+                args[name] = '49.0001'
+            else:
+                args[name] = ['a', 'router-1', 'x' * 255][mode % 3]
+        else:
+            return None
+    return args
+
+
+def run_bgpls_factories(ctx: Ctx) -> None:
+    import inspect
+
+    for code, klass in sorted(ctx.reg['bgpls'].items()):
+        label = 'bgpls:%d' % code
+        names = [n for n in dir(klass) if n.startswith('make_')]
+        if not names:
+            ctx.res.count('bgpls-no-factory')
+        for n in names:
+            fn = getattr(klass, n)
+            for mode in range(4):
+                try:
+                    args = guess_args(fn, klass, ctx.r, mode)
+                except (TypeError, ValueError):
+                    args = None
+                if args is None:
+                    ctx.res.count('bgpls-factory-args-not-guessed')
+                    break
+                try:
+                    x = fn(**args)
+                except Exception as e:  # noqa
+                    ctx.res.count('bgpls-factory-refused:' + type(e).__name__)
+                    continue
+                payload = bytes(getattr(x, '_packed', b''))
+                wit = {'class': label, 'factory': f'{klass.__name__}.{n}', 'args': repr(args)[:200], 'payload': hx(payload)}
+                try:
+                    y = klass.unpack_bgpls(payload)
+                    if hasattr(y, 'flags'):
+                        y.flags
+                    same, why = same_plain_object(x, y)
+                except Exception as e:  # noqa
+                    # the arguments are guessed from annotations and may be inconsistent with each other (flags vs
+                    # sizes); a refusal by the decoder is then the decoder being right, so it is only logged
+                    ctx.res.count('bgpls-guessed-args-not-decodable:%d' % code)
+                    continue
+                if not same:
+                    ctx.bad(f'C15/roundtrip-bgpls:{code}', f'decode(encode(x)) differs for BGP-LS TLV {code}: {why}', wit, label, 'L1')
+                else:
+                    ctx.ok(label, 'L1', (label, 'L1', hx(payload)))
+                exercise_bgpls_tlv(ctx, code, payload, f'factory:{n}')
+
+
+def run_extcomm_enumeration(ctx: Ctx) -> None:
+    r = ctx.r
+    payloads6 = [bytes(6), b'\xff' * 6, bytes([1, 2, 3, 4, 5, 6]), bytes([0, 0, 0xFD, 0xE8, 0, 1]), bytes([0x80, 0, 0, 0, 0, 0])]
+    for (t, s) in sorted(ctx.reg['extcomm']):
+        for tb in (t, t | 0x40, t | 0x80):
+            for p in payloads6 + [bytes(r.getrandbits(8) for _ in range(6)) for _ in range(3 * ctx.scale)]:
+                exercise_extcomm(ctx, bytes([tb, s]) + p, 'enumerated')
+    for (t, s) in sorted(ctx.reg['extcomm6']):
+        for tb in (t, t | 0x40):
+            for p in (bytes(18), b'\xff' * 18, ip_pton('2001:db8::1') + b'\x00\x05', bytes(r.getrandbits(8) for _ in range(18))):
+                exercise_extcomm(ctx, bytes([tb, s]) + p, 'enumerated')
+    # unregistered types go through the generic class
+    for tb, s in ((0x0F, 0xFF), (0x05, 0x01), (0x00, 0xFE)):
+        exercise_extcomm(ctx, bytes([tb, s]) + payloads6[2], 'enumerated')
+
+
+# ============================================================================== UPDATE level (MP_REACH / MP_UNREACH) and configuration files
+
+
+def exercise_update(ctx: Ctx, route, src: str, withdraw: bool = False) -> None:
+    from exabgp.bgp.message.update.collection import RoutedNLRI, UpdateCollection
+    from exabgp.protocol.ip import IP
+
+    nlri = route.nlri
+    afi, safi = fam_of(nlri)
+    neg = ctx.sessions['plain']
+    if laws.has_path_info(nlri):
+        # a route with a path identifier only exists on an ADD-PATH session
+        neg = ctx.sessions['addpath']
+        if not neg.addpath.send(afi, safi):
+            ctx.res.count('update-path-id-family-without-addpath')
+            return
+    if not withdraw and route.nexthop is not IP.NoNextHop and int(afi) == 1 and len(bytes(route.nexthop.pack_ip())) == 16:
+        ctx.res.count('update-needs-extended-nexthop-session')
+        return
+    wit = {'class': laws.nlri_label(nlri), 'source': src, 'route': laws.safe_repr(route)[:300], 'withdraw': withdraw}
+    try:
+        if withdraw:
+            msgs = list(UpdateCollection([], [nlri], route.attributes).messages(neg))
+        else:
+            if route.nexthop is IP.NoNextHop:
+                ctx.res.count('update-no-nexthop')
+                return
+            msgs = list(UpdateCollection([RoutedNLRI(nlri, route.nexthop)], [], route.attributes).messages(neg))
+    except Exception as e:  # noqa
+        ctx.res.count(f'update-pack-raises:{type(e).__name__}')
+        ctx.res.extra.setdefault('update_pack_raises', []).append(f'{src}: {type(e).__name__}: {str(e)[:120]}')
+        return
+    if len(msgs) != 1:
+        ctx.res.count('update-messages-%d' % len(msgs))
+        return
+    body = bytes(msgs[0])[19:]
+    wit['update'] = hx(body)[:600]
+    try:
+        codes = [c for _, c, _, _ in laws.attr_tlvs(laws.split_update(body)[1])]
+    except ValueError:
+        codes = []
+    label = 'attr:15' if 15 in codes else ('attr:14' if 14 in codes else 'update:classic')
+    try:
+        u = UpdateCollection.unpack_message(body, neg)
+        got = list(u.withdraws) if withdraw else [rn.nlri for rn in u.announces]
+        nh = None if withdraw or not u.announces else u.announces[0].nexthop
+    except Exception as e:  # noqa
+        if 'next-hop length' in str(e):
+            # the configured next hop family needs a capability (RFC 8950) or is not one this family carries
+            ctx.res.count('update-nexthop-not-valid-on-this-session')
+            return
+        ctx.bad(f'C15/raises:{label}:{type(e).__name__}', f'ExaBGP cannot decode the UPDATE it encoded: {type(e).__name__}: {str(e)[:140]}', wit, label, 'L1')
+        return
+    ok = len(got) == 1
+    if ok:
+        eq = check_eq_pair(ctx, got[0], nlri, laws.nlri_label(nlri), dict(wit, pair='update decode vs source'))
+        ok = bool(eq)
+    if ok and not withdraw and str(nh) != str(route.nexthop):
+        ok = False
+        wit['nexthop'] = f'{route.nexthop} -> {nh}'
+    if not ok:
+        ctx.bad(f'C15/roundtrip-attr:{label.split(":")[1]}' if label.startswith('attr') else f'C15/roundtrip-nlri:{afi}/{safi}', f'decoding the UPDATE ExaBGP encoded does not give the route back: {[laws.safe_repr(g) for g in got][:2]}', wit, label, 'L1')
+        return
+    ctx.ok(label, 'L1', (label, 'L1', hx(body)))
+    # L2 at the UPDATE level: re-encode what was decoded
+    try:
+        if withdraw:
+            again = list(UpdateCollection([], got, u.attributes).messages(neg))
+        else:
+            again = list(UpdateCollection(list(u.announces), [], u.attributes).messages(neg))
+    except Exception as e:  # noqa
+        ctx.bad(f'C15/raises:{label}:{type(e).__name__}', f're-encoding the decoded UPDATE raises {type(e).__name__}: {str(e)[:140]}', wit, label, 'L2')
+        return
+    if len(again) != 1 or bytes(again[0]) != bytes(msgs[0]):
+        ctx.bad('C15/reencode-differs:' + label, 'encode(decode(UPDATE)) != UPDATE for an UPDATE produced by ExaBGP', dict(wit, reencoded=hx(bytes(again[0])[19:])[:600] if again else ''), label, 'L2')
+    else:
+        ctx.ok(label, 'L2', (label, 'L2', hx(body)))
+    key = ('update', body)
+    if key not in ctx.seen:
+        ctx.seen.add(key)
+
+        def dec():
+            laws.decode_attr_collection(b'', neg)
+            return UpdateCollection.unpack_message(body, neg).attributes
+
+        check_l5(ctx, 'route:attributes', dec, wit, case_id('route:attributes', 'plain', body))
+
+
+def config_files() -> list:
+    base = os.path.join(REPO, 'etc', 'exabgp')
+    names = set(os.path.basename(p) for p in glob.glob(os.path.join(base, '*.conf')))
+    for p in glob.glob(os.path.join(REPO, 'qa', 'encoding', '*.ci')):
+        for line in open(p, errors='replace'):
+            if line.startswith('option:file:'):
+                names.add(line.strip().split(':', 2)[2])
+    return sorted(os.path.join(base, n) for n in names if os.path.exists(os.path.join(base, n)))
+
+
+def run_configs(ctx: Ctx, part: int, parts: int) -> None:
+    cwd = os.getcwd()
+    os.chdir(os.path.join(REPO, 'etc', 'exabgp'))  # `run ./run/x.run` in process sections is relative to the file
+    try:
+        for idx, path in enumerate(config_files()):
+            if idx % parts != part:
+                continue
+            name = os.path.basename(path)
+            try:
+                text = open(path, errors='replace').read().replace('\\\n', ' ')
+                conf = exa.load_config(text)
+            except Exception as e:  # noqa
+                ctx.res.count('config-refused')
+                ctx.res.extra.setdefault('config_refused', []).append(f'{name}: {str(e).strip().splitlines()[-1][:120] if str(e).strip() else type(e).__name__}')
+                continue
+            ctx.res.count('config-parsed')
+            for nb in conf.neighbors.values():
+                for route in list(nb.routes):
+                    ctx.res.count('config-route')
+                    src = f'config:{name}'
+                    exercise_nlri(ctx, route.nlri, src, laws.safe_repr(route)[:300])
+                    for code, a in route.attributes.items():
+                        if int(code) >= 0xFF00 or not hasattr(a, 'pack_attribute'):
+                            continue
+                        k = ('cfgattr', int(code), bytes(getattr(a, '_packed', b'')) or laws.safe_repr(a))
+                        if k in ctx.seen:
+                            continue
+                        ctx.seen.add(k)
+                        exercise_attr(ctx, a, src)
+                        if int(code) in (16, 25):
+                            v = bytes(a._packed)
+                            size = 8 if int(code) == 16 else 20
+                            for i in range(0, len(v) - size + 1, size):
+                                exercise_extcomm(ctx, v[i : i + size], src)
+                        if int(code) == 40:
+                            for sr in getattr(a, 'sr_attrs', []):
+                                exercise_sub_tlv(ctx, 'srid', sr, src)
+                        if int(code) == 23:
+                            for t in getattr(a, 'tunnels', getattr(a, 'tlvs', [])) or []:
+                                exercise_sub_tlv(ctx, 'tunnel', t, src)
+                    exercise_update(ctx, route, src)
+                    exercise_update(ctx, route, src, withdraw=True)
+    finally:
+        os.chdir(cwd)
+
+
+# ============================================================================== plan / shards / finish
+
+IP_GROUPS = [[(2, 128)], [(1, 128)], [(1, 4), (2, 4)], [(1, 1), (1, 2), (2, 1), (2, 2)]]
+
+
+def plan(tier, seed):
+    base = []
+    if tier == 'quick':
+        for g in IP_GROUPS:
+            base.append({'kind': 'ip', 'fams': g, 'scale': 1})
+        base.append({'kind': 'other', 'scale': 1})
+        base.append({'kind': 'attrs', 'scale': 1})
+        base.append({'kind': 'configs', 'part': 0, 'parts': 1, 'scale': 1})
+        for p in range(2):
+            base.append({'kind': 'corpus', 'part': p, 'parts': 2, 'scale': 1})
+    else:
+        for g in IP_GROUPS:
+            for f in g:
+                for p in range(3 if f[1] in (4, 128) else 1):
+                    base.append({'kind': 'ip', 'fams': [f], 'scale': 4, 'part': p})
+        base.append({'kind': 'other', 'scale': 4})
+        for p in range(3):
+            base.append({'kind': 'attrs', 'scale': 6, 'part': p})
+        for p in range(2):
+            base.append({'kind': 'configs', 'part': p, 'parts': 2, 'scale': 1})
+        for p in range(8):
+            base.append({'kind': 'corpus', 'part': p, 'parts': 8, 'scale': 10})
+    out = []
+    for i, d in enumerate(base):
+        for hs in (0, 1):
+            out.append(dict(d, shard=i, hashseed=hs))
+    return out
+
+
+def run_shard(desc):
+    ctx = Ctx(desc)
+    kind = desc['kind']
+    try:
+        if kind == 'ip':
+            for afi, safi in desc['fams']:
+                run_ip_family(ctx, afi, safi)
+        elif kind == 'other':
+            run_other_nlri(ctx)
+        elif kind == 'attrs':
+            run_attr_factories(ctx)
+            run_extcomm_enumeration(ctx)
+            run_bgpls_factories(ctx)
+        elif kind == 'configs':
+            run_configs(ctx, desc.get('part', 0), desc.get('parts', 1))
+        elif kind == 'corpus':
+            run_corpus_nlri(ctx, desc.get('part', 0), desc.get('parts', 1))
+            run_corpus_attrs(ctx, desc.get('part', 0), desc.get('parts', 1))
+        else:
+            ctx.res.inconclusive.append(f'unknown shard kind {kind}')
+    except Exception as e:  # noqa
+        import traceback
+
+        ctx.res.inconclusive.append(f'shard {kind} crashed: {type(e).__name__}: {e} | {traceback.format_exc()[-500:]}')
+    if desc.get('hashseed', 0) == 0:
+        ctx.res.sample({'shard': kind, 'law_evaluations': dict(list(sorted(ctx.lawcount.items()))[:6]), 'contracts_attached': len(M.attached)})
+    return ctx.finish()
+
+
+LAWS = ('L1', 'L2', 'L3', 'L4', 'L5', 'L5x')
+
+
+def finish(merged, tier, seed):
+    extra = merged['extra']
+    r0 = extra.pop('render0', {}) or {}
+    r1 = extra.pop('render1', {}) or {}
+    counts = dict(extra.get('law_evaluations', {}))
+    compared = 0
+    for cid in sorted(set(r0) & set(r1)):
+        label = cid.split('|', 1)[0]
+        k = f'{label}:L5x'
+        compared += 1
+        if r0[cid].split(' ', 1)[0] != r1[cid].split(' ', 1)[0]:
+            merged['violations'].append(
+                {
+                    'key': 'C15/render-depends-on-hashseed:' + label,
+                    'what': f'the renderings of the same bytes differ between PYTHONHASHSEED=0 and 1: {r0[cid][17:120]!r} / {r1[cid][17:120]!r}',
+                    'witness': {'class': label, 'case': cid, 'hashseed0': r0[cid], 'hashseed1': r1[cid]},
+                    'count': 1,
+                }
+            )
+        merged['classes'][k] = merged['classes'].get(k, 0) + 1
+        counts[k] = counts.get(k, 0) + 1
+    merged['evaluations'] += compared
+    only = len(set(r0) ^ set(r1))
+    if only:
+        merged['info']['render-case-in-one-process-only'] = only
+    extra['render_cases_compared_across_hashseed'] = compared
+    if not compared:
+        merged['inconclusive'].append('no rendering was compared across PYTHONHASHSEED 0/1')
+    extra['law_evaluations'] = counts
+    registered = list(extra.get('registered', []))
+    table, not_ex = {}, []
+    for label in registered:
+        row = {law: counts.get(f'{label}:{law}', 0) for law in LAWS}
+        row = {k: v for k, v in row.items() if v}
+        table[label] = row
+        if not row:
+            not_ex.append(label)
+    extra['coverage_by_registry_entry'] = table
+    extra['not_exercised'] = not_ex
+    extra['registered_total'] = len(registered)
+    extra['exercised_total'] = len(registered) - len(not_ex)
+    files = extra.get('exabgp_file')
+    extra['exabgp_file'] = files
+
+
+_IPF = ['ipv4/unicast', 'ipv4/multicast', 'ipv6/unicast', 'ipv6/multicast', 'ipv4/nlri-mpls', 'ipv6/nlri-mpls', 'ipv4/mpls-vpn', 'ipv6/mpls-vpn']
+_REQ = []
+for _f in _IPF:
+    _REQ += [f'nlri:{_f}:{law}' for law in ('L1', 'L2', 'L3', 'L4', 'L5', 'L5x')]
+for _f in ('ipv4/flow', 'ipv6/flow', 'ipv4/flow-vpn', 'ipv6/flow-vpn', 'l2vpn/vpls', 'l2vpn/evpn'):
+    _REQ += [f'nlri:{_f}:{law}' for law in ('L1', 'L2', 'L3', 'L4', 'L5', 'L5x')]
+for _c in (1, 2, 3, 4, 5, 8, 16, 32, 26, 22, 9, 10):
+    _REQ += [f'attr:{_c}:{law}' for law in ('L1', 'L2', 'L3', 'L5', 'L5x')]
+REQUIRED_CLASSES = {'quick': list(_REQ), 'thorough': list(_REQ)}
